@@ -76,7 +76,7 @@ theorem pow_rejects [Ring α] (powf : α → α → α) (x y : FArr α)
 /-- A plain number behaves as an array of x's own dimensions filled with that number. -/
 theorem number_as_full [Ring α] (x : FArr α) (hx : WF x) (c : α) :
     ∃ n, x.prepareOther? (.num c) = some n ∧ n.dims = x.dims ∧ WF n ∧ ∀ e, n.at e = c := by
-  obtain ⟨n, h1, h2, h3, h4⟩ := ofNumber?_spec x c
+  obtain ⟨n, h1, h2, h3, h4⟩ := ofNumber?_spec x hx.1 c
   exact ⟨n, h1, h2, h3 hx.1, fun e => by rw [h4 e, mul_one]⟩
 
 theorem add_num_spec [Ring α] (x : FArr α) (hx : WF x) (c : α) :
